@@ -1,7 +1,7 @@
 (* Dispatch.v -- one command in, one observation out.  The same function is
    extracted to OCaml (model driver) and can be evaluated inside Coq
    (extraction cross-check).  Commands mirror harness/src/bin/impl_driver.rs. *)
-From MsiModel Require Import Base Sexp Timestamp Language ExprCmd.
+From MsiModel Require Import Base Sexp Timestamp Language ExprCmd ColumnCmd.
 Open Scope string_scope.
 
 Record state := { st_dummy : unit }.
@@ -25,7 +25,11 @@ Definition dispatch (st : state) (c : sx) : state * sx :=
       | None =>
           match expr_cmd name args with
           | Some o => (st, o)
-          | None => (st, bad_cmd)
+          | None =>
+              match column_cmd name args with
+              | Some o => (st, o)
+              | None => (st, bad_cmd)
+              end
           end
       end
   | _ => (st, bad_cmd)
